@@ -48,9 +48,9 @@ func c01fRun(c *Ctx, r *zsimrt.Run) {
 		var kinds []string
 		switch e.Op {
 		case "readfile", "open":
-			kinds = []string{"enoent", "eacces", "eisdir", "eio", "eio-read", "short0"}
+			kinds = []string{"enoent", "eacces", "eisdir", "eio", "eio-read", "short0", "dangling"}
 		case "stat", "lstat", "evalsymlinks":
-			kinds = []string{"enoent", "eacces", "eisdir", "eio"}
+			kinds = []string{"enoent", "eacces", "eisdir", "eio", "dangling"}
 		case "home":
 			kinds = []string{"nohome"}
 		case "getwd", "abs-rel":
@@ -78,6 +78,11 @@ func c01fRun(c *Ctx, r *zsimrt.Run) {
 					}
 					f.AtSeq = e.Seq
 					f.K = len(L.Files[e.Path]) / 2
+				case "dangling":
+					if mode != "sticky" {
+						continue
+					}
+					f.Sticky = true // the path is a symlink to a missing target, from the start
 				default:
 					switch mode {
 					case "sticky":
